@@ -78,7 +78,21 @@ func (x *DotLookup) Visit(v func(Expression)) {
 }
 
 func (x *DotLookup) String() string {
+	// a numeric lookup directly after another numeric lookup (foo.1 .2) needs a separating space,
+	// otherwise the two would be read back as one decimal (foo.1.2)
+	if inner, isDot := x.Container.(*DotLookup); isDot && isDigits(inner.Lookup) && isDigits(x.Lookup) {
+		return fmt.Sprintf("%s .%s", x.Container.String(), x.Lookup)
+	}
 	return fmt.Sprintf("%s.%s", x.Container.String(), x.Lookup)
+}
+
+func isDigits(s string) bool {
+	for _, c := range s {
+		if c < '0' || c > '9' {
+			return false
+		}
+	}
+	return s != ""
 }
 
 type ArrayLookup struct {
